@@ -26,17 +26,25 @@ fn id_of(k: usize) -> [u8; 20] {
     id
 }
 
-pub fn torrent(n: usize, pl: usize, total: usize) -> Metainfo {
+const OWN_ID: [u8; 20] = *b"XXXXXXXXXXXXXXXXXXXX";
+
+fn torrent_doc(n: usize, pl: usize, total: usize) -> (Vec<u8>, Vec<u8>) {
     let mut pieces = vec![];
     for i in 0..n {
         let mut h = vec![b'A' + (i % 26) as u8; 10];
         h.extend_from_slice(format!("{:010}", i).as_bytes());
         pieces.extend_from_slice(&h);
     }
-    let mut doc = format!("d8:announce19:http://127.0.0.1:1/4:infod6:lengthi{}e4:name1:f12:piece lengthi{}e6:pieces{}:", total, pl, pieces.len()).into_bytes();
-    doc.extend_from_slice(&pieces);
-    doc.extend_from_slice(b"ee");
-    Metainfo::from_bencode(&doc).expect("harness torrent must parse")
+    let mut info = format!("d6:lengthi{}e4:name1:f12:piece lengthi{}e6:pieces{}:", total, pl, pieces.len()).into_bytes();
+    info.extend_from_slice(&pieces);
+    info.extend_from_slice(b"e");
+    let mut doc = b"d8:announce19:http://127.0.0.1:1/4:info".to_vec();
+    doc.extend_from_slice(&info);
+    doc.extend_from_slice(b"e");
+    (doc, info)
+}
+pub fn torrent(n: usize, pl: usize, total: usize) -> Metainfo {
+    Metainfo::from_bencode(&torrent_doc(n, pl, total).0).expect("harness torrent must parse")
 }
 
 fn st(s: &Status) -> String {
@@ -60,7 +68,7 @@ fn ou(x: Option<u32>) -> String {
     x.map(|v| v.to_string()).unwrap_or("-".to_string())
 }
 
-fn snapshot(s: &mut Session, rx: &HashMap<usize, Option<usize>>, bc: &mut tokio::sync::broadcast::Receiver<BroadCmd>) -> String {
+fn snapshot(s: &mut Session, rx: &HashMap<usize, Option<usize>>, bc: &mut tokio::sync::broadcast::Receiver<BroadCmd>, info_hash: &[u8; 20]) -> String {
     let sts: Vec<String> = s.verif_statuses().iter().map(st).collect();
     let mut addrs: Vec<usize> = s.verif_peer_addrs().iter().map(|a| num_of(a)).collect();
     addrs.sort();
@@ -97,7 +105,33 @@ fn snapshot(s: &mut Session, rx: &HashMap<usize, Option<usize>>, bc: &mut tokio:
             }
         }
     }
-    let sp = s.verif_take_spawned();
+    // a recorded "peer" spawn is printed with its address and, when the connection task was not configured with the
+    // session's own id, the candidate's peer id, the torrent's info hash and its piece count, the mark BAD
+    let args = s.verif_take_spawn_args();
+    let mut args_it = args.iter();
+    let sp: Vec<String> = s
+        .verif_take_spawned()
+        .iter()
+        .map(|k| {
+            if *k != "peer" {
+                return k.to_string();
+            }
+            match args_it.next() {
+                None => "peer:0:BAD".to_string(),
+                Some(a) => {
+                    let t: Vec<&str> = a.split(' ').collect();
+                    let key = num_of(t[0]);
+                    let hex = |b: &[u8]| b.iter().map(|x| format!("{:02x}", x)).collect::<String>();
+                    let ok = t.len() == 5
+                        && t[1] == hex(&OWN_ID)
+                        && t[2] == hex(&id_of(key))
+                        && t[3] == hex(info_hash)
+                        && t[4] == s.verif_statuses().len().to_string();
+                    format!("peer:{}{}", key, if ok { "" } else { ":BAD" })
+                }
+            }
+        })
+        .collect();
     format!(
         "st={} p={} c={} x={} r={} sp={} bc={}",
         if sts.is_empty() { "-".to_string() } else { sts.join(",") },
@@ -407,7 +441,8 @@ pub fn run(lines: &[String]) {
         let mut outs: Vec<String> = vec![];
         let r = guarded(|| {
             rt.block_on(async {
-                let mut s = Session::new(torrent(n, pl, total), *b"XXXXXXXXXXXXXXXXXXXX");
+                let mut s = Session::new(torrent(n, pl, total), OWN_ID);
+                let info_hash = crate::hnd::sha1(&torrent_doc(n, pl, total).1);
                 s.verif_record_spawns();
                 let mut bc = s.verif_subscribe();
                 let mut rx: HashMap<usize, Option<usize>> = HashMap::new();
@@ -421,7 +456,7 @@ pub fn run(lines: &[String]) {
                             r => r,
                         }
                     };
-                    let snap = snapshot(&mut s, &rx, &mut bc);
+                    let snap = snapshot(&mut s, &rx, &mut bc, &info_hash);
                     res.push(format!("{} | {}", step, snap));
                     PROGRESS.with(|p| p.borrow_mut().push(res.last().unwrap().clone()));
                 }
